@@ -1,7 +1,9 @@
 #!/usr/bin/env python3
 """Run the registered quick checks against every seeded change and record which check detects it.
 
-usage: tools/matrix.py [seed-id ...]     (applies seeded/<id>/patch.diff to /repo, runs checks, undoes it straight away)
+usage: tools/matrix.py [-j N] [seed-id ...]
+Each seeded/<id>/patch.diff is applied to a scratch worktree of /repo under /tmp/mx (never to /repo itself); the checks run
+with VERIF_REPO pointing at it and VERIF_SCRATCH keeping their evidence/replays apart; the worktree is removed afterwards.
 """
 import json
 import re
@@ -21,6 +23,8 @@ FIXREV = {
     "fixrev-american-delta-nan": ("C18", ["C18"], "reverse of the fix: bs_american_binary_delta NaN at t=0 / v=0"),
     "fixrev-vasicek": ("C10", ["C10", "C11"], "reverse of the fix: generate_vasicek infinite recursion / theta ignored"),
     "fixrev-cast-state": ("C11", ["C11"], "reverse of the fix: scalar initial states rounded through float32"),
+    "fixrev-binary-gamma": ("C08", ["C08"], "reverse of the fix: European binary gamma/vega/theta at any time to maturity other than 1"),
+    "fixrev-cir-zero-variance": ("C11", ["C11"], "reverse of the fix: generate_cir / CIRRate NaN when the step has no variance (sigma = 0)"),
 }
 EXTRA = {"C03-B-stale-prev-output": ["C03", "C16"], "C16-B-prev-output-not-rezeroed": ["C16", "C03"], "C04-A-es-ties-at-quantile": ["C04", "C05"],
          "C05-B-qcvar-bracket-sign": ["C05", "C04"], "C04-B-erm-small-a-expansion": ["C04", "C05"], "C05-A-erm-global-shift": ["C05", "C04"],
@@ -31,37 +35,60 @@ def run(cmd, **kw):
     return subprocess.run(cmd, shell=True, capture_output=True, text=True, **kw)
 
 
-def main():
-    ids = sys.argv[1:] or sorted(p.name for p in (VERIF / "seeded").iterdir() if (p / "patch.diff").exists())
-    if run("git -C /repo status --porcelain").stdout.strip():
-        print("/repo not clean"); return 2
-    for sid in ids:
-        d = VERIF / "seeded" / sid
-        meta = json.loads((d / "meta.json").read_text()) if (d / "meta.json").exists() else {"seed_id": sid}
-        if sid in FIXREV:
-            prop, checks, what = FIXREV[sid]
-            meta.update({"property": prop, "kind": "reverse of a fix: commit (regression)", "needs_to_manifest": what})
-        else:
-            prop = meta["property"]
-            checks = EXTRA.get(sid, [prop])
-        r = run(f"git -C /repo apply {d / 'patch.diff'}")
+def one(sid):
+    import os, shutil
+    d = VERIF / "seeded" / sid
+    meta = json.loads((d / "meta.json").read_text()) if (d / "meta.json").exists() else {"seed_id": sid}
+    if sid in FIXREV:
+        prop, checks, what = FIXREV[sid]
+        meta.update({"property": prop, "kind": "reverse of a fix: commit (regression)", "needs_to_manifest": what})
+    else:
+        prop = meta["property"]
+        checks = EXTRA.get(sid, [prop])
+    wt = Path("/tmp/mx") / sid
+    scratch = Path("/tmp/mx") / (sid + ".out")
+    run(f"git -C /repo worktree remove --force {wt}")
+    shutil.rmtree(wt, ignore_errors=True); shutil.rmtree(scratch, ignore_errors=True)
+    r = run(f"git -C /repo worktree add -q --detach {wt} HEAD")
+    if r.returncode != 0:
+        return sid, "WORKTREE FAILED " + r.stderr[-200:]
+    try:
+        r = run(f"git -C {wt} apply {d / 'patch.diff'}")
         if r.returncode != 0:
             meta["detected_by"] = {"error": "patch does not apply to the current tree"}
-            print(sid, "PATCH DOES NOT APPLY")
+            meta["detected"] = False
+            msg = "PATCH DOES NOT APPLY"
         else:
             det = {}
-            try:
-                for c in checks:
-                    out = run(f"./check {c} --tier quick", cwd=VERIF)
-                    keys = re.findall(r"^VIOLATION property=\S+ replay=\S+\s+\[([^\]]+)\]", out.stdout, flags=re.M)
-                    det[c] = {"exit": out.returncode, "violation_keys": keys[:6]}
-            finally:
-                run("git -C /repo checkout -- .")
+            env = dict(os.environ, VERIF_REPO=str(wt), VERIF_SCRATCH=str(scratch))
+            scratch.mkdir(parents=True, exist_ok=True)
+            for c in checks:
+                out = run(f"./check {c} --tier quick", cwd=VERIF, env=env)
+                keys = re.findall(r"^VIOLATION property=\S+ replay=\S+\s+\[([^\]]+)\]", out.stdout, flags=re.M)
+                det[c] = {"exit": out.returncode, "violation_keys": keys[:6]}
             meta["detected_by"] = det
             meta["detected"] = any(v["exit"] == 1 for v in det.values())
-            print(sid, "DETECTED" if meta["detected"] else "missed", {c: (v["exit"], v["violation_keys"][:2]) for c, v in det.items()})
-        meta["what_was_run"] = "tools/confirm_mutant.py (demo with/without the change, repository test suite with the change) and tools/matrix.py (quick checks with the change applied to /repo, undone afterwards)"
-        (d / "meta.json").write_text(json.dumps(meta, indent=1) + "\n")
+            msg = ("DETECTED " if meta["detected"] else "missed ") + str({c: (v["exit"], v["violation_keys"][:2]) for c, v in det.items()})
+    finally:
+        run(f"git -C /repo worktree remove --force {wt}")
+        shutil.rmtree(wt, ignore_errors=True); shutil.rmtree(scratch, ignore_errors=True)
+    meta["what_was_run"] = ("tools/confirm_mutant.py (demo with/without the change, repository test suite with the change) and tools/matrix.py "
+                            "(quick checks against a scratch worktree of /repo with the change applied)")
+    (d / "meta.json").write_text(json.dumps(meta, indent=1) + "\n")
+    return sid, msg
+
+
+def main():
+    from concurrent.futures import ThreadPoolExecutor
+    args = sys.argv[1:]
+    jobs = 4
+    if args[:1] == ["-j"]:
+        jobs = int(args[1]); args = args[2:]
+    ids = args or sorted(p.name for p in (VERIF / "seeded").iterdir() if (p / "patch.diff").exists())
+    Path("/tmp/mx").mkdir(exist_ok=True)
+    with ThreadPoolExecutor(jobs) as ex:
+        for sid, msg in ex.map(one, ids):
+            print(sid, msg, flush=True)
     return 0
 
 
